@@ -3,9 +3,10 @@ EXTENDS Atlas, AtlasParams, TLC, Json
 Init == /\ n \in 1..MaxHosts /\ auth \in AAuth /\ cli \in ACli
         /\ fault \in [at : 0..MaxHosts, kind : AKinds]
         /\ (auth # "digest" => fault.kind \in {"none"} \cup ReqFaults)     \* file faults are explored with the ordinary server
+        /\ keyOk \in BOOLEAN /\ (~keyOk => cli /\ fault.kind = "none" /\ auth = "digest")
         /\ AtlasInit
 Spec == Init /\ [][AtlasNext]_vars /\ WF_vars(AtlasNext)
-Rec == [n |-> n, auth |-> auth, fault |-> fault, cli |-> cli, reqLog |-> reqLog, outs |-> outs, touched |-> touched, exit |-> exit,
+Rec == [n |-> n, auth |-> auth, fault |-> fault, cli |-> cli, keyOk |-> keyOk, reqLog |-> reqLog, outs |-> outs, touched |-> touched, exit |-> exit,
         reg |-> reg, tmp |-> tmp]
 EmitInv == Done => PrintT(ToJson(Rec))
 =============================================================================
